@@ -3,6 +3,14 @@ package main
 // buildCases returns the families of one property.
 func buildCases(id string, g *Gen) []*Case {
 	switch id {
+	case "C01":
+		return casesC01(g)
+	case "C02":
+		return casesC02(g)
+	case "C03":
+		return casesC03(g)
+	case "C04":
+		return casesC04(g)
 	case "C05":
 		return casesC05(g)
 	case "C08":
